@@ -46,6 +46,7 @@ def run(ctx):
     malsec.dzkp_verify_guard(ctx, facts, "GUARD-dzkp")
     malsec.dzkp_validate_path(ctx, facts, "PATH-verdict")
     malsec.batch_store_grows(ctx, facts, "STORE-grow")
+    malsec.segment_packing(ctx, facts, "PACK-slots")
     malsec.drop_guard(ctx, facts, "WHO-drop")
     from rules import C04
     C04.wire_acc(ctx, facts)
